@@ -181,6 +181,12 @@ impl C11 {
                 }
                 continue;
             }
+            if let Step::Key(k, _, ctrl, _, _) = step {
+                // control + digit sets that place marker through the keyboard: the model forgets where it was
+                if (48..=57).contains(k) && *ctrl {
+                    markers.remove(&char::from_u32(*k as u32).unwrap_or('0'));
+                }
+            }
             since_set.push(step.clone());
             // (1) the position is a node of the current expression and its MathML can be retrieved
             let after = match sess.position() {
